@@ -8,6 +8,7 @@ package vsched
 
 import (
 	"fmt"
+	"os"
 	"runtime"
 	"runtime/debug"
 	"sync"
@@ -314,7 +315,7 @@ func (s *sched) schedule() {
 		s.parkForever(me)
 	}
 	var tids []int
-	if len(en) > 1 && !s.mainDone {
+	if debugThreads && len(en) > 1 && !s.mainDone {
 		tids = make([]int, len(en))
 		for i, t := range en {
 			tids[i] = t.id
@@ -350,12 +351,18 @@ func opName(k opKind) string {
 
 var alwaysEnabled = func() bool { return true }
 
+// debugThreads records the enabled thread ids at every choice point (VSCHED_DEBUG=1).
+var debugThreads = os.Getenv("VSCHED_DEBUG") != ""
+
 // Go starts f as a controlled thread (or a plain goroutine in pass-through mode).
 func Go(f func()) {
 	s := cur()
-	if s == nil || s.inert() {
+	if s == nil {
 		go f()
 		return
+	}
+	if s.inert() {
+		return // teardown: deferred code must not start goroutines that outlive the execution
 	}
 	s.spawn(f, "")
 }
@@ -376,6 +383,7 @@ func (s *sched) spawn(f func(), name string) *thread {
 			return
 		}
 		t.pending = nil
+		s.event(t, opStart, nil, false, 0)
 		f()
 	}()
 	return t
@@ -393,6 +401,7 @@ func (s *sched) threadExit(t *thread) {
 	}
 	t.dead = true
 	t.pending = nil
+	s.event(t, opStart, nil, false, 1) // exit event: the set of live threads is part of the state
 	if t.id == 0 {
 		s.mainDone = true
 		s.out.MainDone = true
